@@ -493,8 +493,8 @@ L2_RULE = ("MACRO LEVEL: generated multi-cache histories (30-120 operations + cl
 prop("C01", ["l1", "l2", "key", "conc"], "exploration",
      CONC_RULE + "Under concurrency every execution returns a unique value (invalidate_on verdicts scripted per call): a call must not be served a value once a later execution for the same key has stored another one and returned. " + L1_RULE + L2_RULE + "KEY LEVEL (shared with C02): adversarial argument pairs on 50 signature shapes; a call served from another tuple's entry is reported here as 'a value stored for other arguments'. Non-trivial = a lookup of a stored key (value must be the last one stored for that key); distinct = distinct (configuration, key, hit-count class, store size).",
      COMMON_ASSUME, ("C01", "lookups_of_stored_key"))
-prop("C05", ["l1", "l2"], "exploration",
-     L1_RULE + L2_RULE + "Values: String, Vec<u8>, Vec<String>, Option<String>, Result<String,String>, (String,Vec<u32>), Box<String>, a user type with its own estimator; sizes around M/3, M/2, M-1, M, M+1, >M, with slack capacity. Sizes are measured by an independent footprint oracle. Non-trivial = a store under memory pressure; distinct = distinct (configuration, residents, order shape, size class).",
+prop("C05", ["l1", "l2", "conc"], "exploration",
+     L1_RULE + L2_RULE + CONC_RULE + "Under concurrency (functions with max_memory only, plain stores): at quiescence the cached bytes plus the largest value that was stored and is gone must exceed max_memory (nothing is evicted while everything fits, under every serialisation). Values include one whose estimator reports 0 bytes. Values: String, Vec<u8>, Vec<String>, Option<String>, Result<String,String>, (String,Vec<u32>), Box<String>, a user type with its own estimator; sizes around M/3, M/2, M-1, M, M+1, >M, with slack capacity. Sizes are measured by an independent footprint oracle. Non-trivial = a store under memory pressure; distinct = distinct (configuration, residents, order shape, size class).",
      COMMON_ASSUME + ["the footprint oracle (vhooks::Footprint) is the intended meaning of 'inline size plus owned heap capacity'"], ("C05", "stores_under_memory_pressure"))
 prop("C06", ["l1", "l2"], "exploration",
      L1_RULE + L2_RULE + "Non-trivial = a lookup of an entry while a ttl is configured; distinct = distinct (configuration, quarter-second age bucket, store size, exactly-on-a-second?).",
